@@ -11,7 +11,7 @@ META = {
         "from resurrecting a stale entry; R4 an exhausted snapshot yields Synced for its own id and map sync registers the key snapshot in one "
         "synchronous step; R5 a targeted response links implicitly before its data; R6 a queued synced marker follows all queued data of the "
         "lane (drain loop); R7 the synced marker bookkeeping in Uplinks; R8 lane responses keep their target: SyncEvent -> Some(id), "
-        "StandardEvent -> None."),
+        "StandardEvent -> None; R9 the queued-flag discipline of the per-remote queue (shared with C01): a lane whose synced marker was popped is queued again by its next event."),
     "does_not_decide": "the snapshot-consistency statement over all placements of sync requests and all interleavings",
 }
 
@@ -180,6 +180,9 @@ def run(ctx):
 
     with ctx.rule("C03.R7", "T3", "synced marker bookkeeping in Uplinks", floor=8) as r:
         uplinks.synced_marker(r, ctx)
+
+    with ctx.rule("C03.R9", "T3", "after a sync the lane keeps being written: queued flag <=> queue entry in every pop arm (gap-free tail)", floor=20) as r:
+        uplinks.queued_flag_discipline(r, ctx)
 
     with ctx.rule("C03.R8", "T10-lite", "lane responses keep their target and kind on the way to the write task", floor=7) as r:
         for fn, ctor in (("value_or_supply_raw_response", None), ("map_raw_response", "map_lane")):
